@@ -1,4 +1,5 @@
 import CoxeterVerif.Lemmas.Planar
+import CoxeterVerif.Lemmas.PlanarFrame
 /-!
   # C04 — polygon area, centroid, planar/polar moments are exact
 
@@ -199,5 +200,402 @@ example : OrientedBy 1 exSqT := by
   intro t ht
   simp [exSqT] at ht
   rcases ht with rfl | rfl <;> simp [Spec2.triArea, Scalar.lit]
+
+/-! ## Tilted planes
+
+  From here on the polygon lies in ANY plane `n · v = d` with unit normal `n`.
+  * `Spec3.areaVector vs = ½ Σ v_i × v_{i+1}`; `n · areaVector` is the signed area about `n`.
+  * `Ts` : any list of 3-D triangles in the plane whose boundary edge chain is the vertex cycle
+    (`Triangulates vs Ts` — the chain equation is about 3-D directed edges, so it is the same notion
+    as before); "exact integrals" = `Spec3` (triangle closed forms with the triangle areas signed
+    about `n`).
+  * `R` : the matrix returned by `rowan.mapping.kabsch([n,-n],[ẑ,-ẑ])`, an external parameter with the
+    contract `IsFrame R n` = (`RᵀR = 1`, `det R = 1`, `R n = ẑ`) that the harness checks per case.
+-/
+
+/-- all vertices lie in the plane `n · v = d` -/
+def InPlane (n : V3 ℝ) (d : ℝ) (vs : List (V3 ℝ)) : Prop := ∀ v ∈ vs, V3.dot n v = d
+
+/-- all triangles of `Ts` have orientation `s` about the normal `n` -/
+def OrientedBy3 (n : V3 ℝ) (s : ℝ) (Ts : List (Tri ℝ)) : Prop := ∀ t ∈ Ts, 0 < s * Spec3.triArea n t
+
+/-- the matrix form of the frame contract: `RᵀR = 1`, `det R = 1`, `R n = ẑ` -/
+theorem isFrame_of_contract {R : M3 ℝ} {n : V3 ℝ} (h : M3.mul (M3.transpose R) R = M3.one)
+    (hd : M3.det R = 1) (hz : M3.mulVec R n = ⟨0, 0, 1⟩) : IsFrame R n :=
+  ⟨isRot_of_mul h hd, hz⟩
+
+/-- the same contract as the harness evaluates it: `R Rᵀ = 1`, `det R = 1`, `R n = ẑ` -/
+theorem isFrame_of_contract' {R : M3 ℝ} {n : V3 ℝ} (h : M3.mul R (M3.transpose R) = M3.one)
+    (hd : M3.det R = 1) (hz : M3.mulVec R n = ⟨0, 0, 1⟩) : IsFrame R n :=
+  ⟨isRot_of_mul_transpose h hd, hz⟩
+
+/-- the component `n[argmax |n|]` by which `signed_area` divides is non-zero for a unit normal -/
+theorem signedArea_divisor_ne_zero {n : V3 ℝ} (hn : V3.norm n = 1) :
+    n.get (Poly2.argmax3 |n.x| |n.y| |n.z|) ≠ 0 :=
+  argmax3_get_ne_zero n (by rw [normSq_of_norm_one hn]; norm_num)
+
+/-- **C04 signed area, any plane**: for a vertex cycle in the plane `n · v = d`, `‖n‖ = 1`, the
+projection-and-rescale formula of `Polygon.signed_area` returns `n · areaVector`. -/
+theorem signedArea_general_exact {vs : List (V3 ℝ)} {n : V3 ℝ} {d : ℝ} (hpl : InPlane n d vs)
+    (hn : V3.norm n = 1) : Poly2.signedArea vs n = V3.dot n (Spec3.areaVector vs) :=
+  signedArea_eq_dot_areaVector vs n d hpl hn
+
+/-- `n · areaVector` is the exact signed area (about `n`) of any triangulation bounded by the cycle -/
+theorem areaVector_triangulation (n : V3 ℝ) {vs : List (V3 ℝ)} {Ts : List (Tri ℝ)}
+    (h : Triangulates vs Ts) : V3.dot n (Spec3.areaVector vs) = Spec3.area n Ts :=
+  dot_areaVector_tri n h
+
+/-- **C04 signed area, any plane, against the triangle spec** -/
+theorem signedArea_general_tri {vs : List (V3 ℝ)} {n : V3 ℝ} {d : ℝ} {Ts : List (Tri ℝ)}
+    (hpl : InPlane n d vs) (hn : V3.norm n = 1) (h : Triangulates vs Ts) :
+    Poly2.signedArea vs n = Spec3.area n Ts := by
+  rw [signedArea_general_exact hpl hn, areaVector_triangulation n h]
+
+theorem oriented3_area_pos {n : V3 ℝ} {s : ℝ} {Ts : List (Tri ℝ)} (ho : OrientedBy3 n s Ts)
+    (hne : Ts ≠ []) : 0 < s * Spec3.area n Ts := by
+  rw [Spec3.area_eq, ← list_sum_map_mul]
+  apply List.sum_pos
+  · intro x hx
+    simp only [List.mem_map] at hx
+    obtain ⟨t, ht, rfl⟩ := hx
+    exact ho t ht
+  · simpa using hne
+
+/-- **sign convention**: the signed area is positive exactly when the cycle is counter-clockwise
+about `n` (`s = 1`), negative when clockwise (`s = -1`). -/
+theorem signedArea_general_sign {vs : List (V3 ℝ)} {n : V3 ℝ} {d s : ℝ} {Ts : List (Tri ℝ)}
+    (hpl : InPlane n d vs) (hn : V3.norm n = 1) (h : Triangulates vs Ts)
+    (ho : OrientedBy3 n s Ts) (hne : Ts ≠ []) : 0 < s * Poly2.signedArea vs n := by
+  rw [signedArea_general_tri hpl hn h]; exact oriented3_area_pos ho hne
+
+/-- **C04 area, any plane**: `area = |n · areaVector|`, and `= s ·` exact signed area for a cycle of
+orientation `s = ±1`. -/
+theorem area_general_exact {vs : List (V3 ℝ)} {n : V3 ℝ} {d : ℝ} (hpl : InPlane n d vs)
+    (hn : V3.norm n = 1) : Poly2.area vs n = |V3.dot n (Spec3.areaVector vs)| := by
+  unfold Poly2.area; rw [signedArea_general_exact hpl hn]; rfl
+
+theorem area_general_tri {vs : List (V3 ℝ)} {n : V3 ℝ} {d s : ℝ} {Ts : List (Tri ℝ)}
+    (hs : s = 1 ∨ s = -1) (hpl : InPlane n d vs) (hn : V3.norm n = 1) (h : Triangulates vs Ts)
+    (ho : OrientedBy3 n s Ts) (hne : Ts ≠ []) : Poly2.area vs n = s * Spec3.area n Ts := by
+  have hp := oriented3_area_pos ho hne
+  unfold Poly2.area; rw [signedArea_general_tri hpl hn h]
+  simp only [Scalar.abs_real]
+  rcases hs with rfl | rfl
+  · rw [abs_of_pos (by linarith)]; ring
+  · rw [abs_of_neg (by linarith)]; ring
+
+/-! ### orthogonal-frame transfer -/
+
+/-- **shoelace sum in the aligned frame** `w = align R vs` is `2 n · areaVector vs` (no planarity
+needed: cross-product covariance `R(a×b) = Ra × Rb` and `Rᵀẑ = n`). -/
+theorem shoelace_frame_exact {R : M3 ℝ} {n : V3 ℝ} (hF : IsFrame R n) (vs : List (V3 ℝ)) :
+    Scalar.sum (List.zipWith Poly2.delta (Poly2.align R vs) (Poly2.rotl 1 (Poly2.align R vs)))
+      = 2 * V3.dot n (Spec3.areaVector vs) := by
+  rw [zipWith_rotl_eq, dot_areaVector]
+  unfold Poly2.align
+  rw [cycleEdges_map]
+  simp only [sumEdges, List.map_map, Function.comp_def, hF.delta_eq]
+  rw [← list_sum_map_mul]
+  congr 1
+  apply List.map_congr_left
+  intro e _; ring
+
+theorem sum_z_align {R : M3 ℝ} {n : V3 ℝ} (hF : IsFrame R n) {d : ℝ} (vs : List (V3 ℝ))
+    (hpl : InPlane n d vs) : ((Poly2.align R vs).map (·.z)).sum = vs.length * d := by
+  unfold Poly2.align
+  induction vs with
+  | nil => simp
+  | cons a t ih =>
+    have := ih (fun v hv => hpl v (List.mem_cons_of_mem _ hv))
+    simp only [List.map_cons, List.sum_cons, List.length_cons] at this ⊢
+    rw [this, hF.mulVec_z, hpl a List.mem_cons_self]; push_cast; ring
+
+theorem mulVec_sdiv (R : M3 ℝ) (v : V3 ℝ) (k : ℝ) :
+    M3.mulVec R (V3.sdiv v k) = V3.sdiv (M3.mulVec R v) k := by
+  ext <;> simp only [M3.mulVec, V3.sdiv_x, V3.sdiv_y, V3.sdiv_z] <;> ring
+
+theorem triangulates_nil_area (n : V3 ℝ) {Ts : List (Tri ℝ)} (h : Triangulates [] Ts) :
+    Spec3.area n Ts = 0 := by
+  rw [← areaVector_triangulation n h]
+  simp [Spec3.areaVector, Spec3.cyc, V3.sum, V3.dot, V3.zero, V3.sdiv, Scalar.lit]
+
+/-- **C04 centroid, any plane** (either vertex orientation; non-zero area): the value returned by
+`Polygon.centroid` — first moments in the aligned frame over the signed area, the mean height, all
+rotated back with `Rᵀ` — is the exact centroid `first moment / area` of any planar triangulation
+bounded by the vertex cycle; in particular it lies in the polygon's plane (`Spec3.dot_centroid`). -/
+theorem centroid_general_exact {vs : List (V3 ℝ)} {n : V3 ℝ} {d : ℝ} {R : M3 ℝ} {Ts : List (Tri ℝ)}
+    (hF : IsFrame R n) (hpl : InPlane n d vs) (hT : TrisInPlane n d Ts) (h : Triangulates vs Ts)
+    (hA : Spec3.area n Ts ≠ 0) : Poly2.centroid vs n R = Spec3.centroid n Ts := by
+  have hn := hF.norm_eq
+  have hsa := signedArea_general_tri hpl hn h
+  have hmap : Triangulates (Poly2.align R vs) (Ts.map (Tri.map (M3.mulVec R))) :=
+    EdgeChainEq.map_vertices _ h
+  obtain ⟨h0, h1⟩ := polygon_first_exact hmap
+  obtain ⟨f0, f1⟩ := hF.first_eq Ts
+  have hvs : vs ≠ [] := by
+    rintro rfl; exact hA (triangulates_nil_area n h)
+  have hlen : (vs.length : ℝ) ≠ 0 := by
+    have : vs.length ≠ 0 := fun h0 => hvs (List.length_eq_zero_iff.mp h0)
+    exact_mod_cast this
+  have hz := sum_z_align hF vs hpl
+  have hdc := Spec3.dot_centroid hT hA
+  unfold Poly2.centroid
+  simp only [h0, h1, hsa, f0, f1, Scalar.sum_real, hz]
+  have e : (⟨6 * (M3.mulVec R (Spec3.first n Ts)).x / (lit 6 * Spec3.area n Ts),
+      6 * (M3.mulVec R (Spec3.first n Ts)).y / (lit 6 * Spec3.area n Ts),
+      (vs.length : ℝ) * d / Scalar.ofNat (Poly2.align R vs).length⟩ : V3 ℝ)
+      = M3.mulVec R (Spec3.centroid n Ts) := by
+    have hl : (Poly2.align R vs).length = vs.length := by simp [Poly2.align]
+    unfold Spec3.centroid
+    rw [mulVec_sdiv]
+    ext
+    · simp only [V3.sdiv_x, Scalar.lit, Scalar.ofNat_real]; push_cast; field_simp
+    · simp only [V3.sdiv_y, Scalar.lit, Scalar.ofNat_real]; push_cast; field_simp
+    · rw [← mulVec_sdiv, hF.mulVec_z]
+      change _ = V3.dot n (Spec3.centroid n Ts)
+      rw [hdc, hl]; simp only [Scalar.ofNat_real]; field_simp
+  rw [e, hF.rot.transpose_mulVec]
+
+/-- **C04 polar moment, any plane**: `polar_moment_inertia` (evaluated in the aligned frame) is the
+exact second moment `∫|v − d n|² dA` about the axis through the origin along the normal (`d n` is
+the point where that axis meets the plane). -/
+theorem polarMoment_general_exact {vs : List (V3 ℝ)} {n : V3 ℝ} {d s : ℝ} {R : M3 ℝ}
+    {Ts : List (Tri ℝ)} (hF : IsFrame R n) (hs : s = 1 ∨ s = -1) (hT : TrisInPlane n d Ts)
+    (h : Triangulates vs Ts) (ho : OrientedBy3 n s Ts) (hne : Ts ≠ []) :
+    Poly2.polarMoment vs R = s * Spec3.polarAbout n (V3.smul d n) Ts := by
+  have htri : Triangulates (Poly2.align R vs) (Ts.map (Tri.map (M3.mulVec R))) :=
+    EdgeChainEq.map_vertices _ h
+  have hor : OrientedBy s (Ts.map (Tri.map (M3.mulVec R))) := by
+    intro t' ht'
+    simp only [List.mem_map] at ht'
+    obtain ⟨t, ht, rfl⟩ := ht'
+    rw [hF.triArea_eq]; exact ho t ht
+  rw [polarMoment_exact R hs htri hor (by simpa using hne), hF.polar_axis hT]
+
+/-! ### inertia tensor -/
+
+theorem align_align_centred (R R2 : M3 ℝ) (c : V3 ℝ) (vs : List (V3 ℝ)) :
+    Poly2.align R2 (Poly2.align R (vs.map (· - c))) = vs.map (frameMap R R2 c) := by
+  simp only [Poly2.align, List.map_map]; rfl
+
+/-- **C04 inertia tensor, any plane, any frame matrices**: for a polygon in the plane `n · v = d`
+whose vertex cycle has orientation `s = ±1` about `n`, with `R` a frame for `n` and `R2` a frame for
+`ẑ` (the second kabsch call inside `polar_moment_inertia`), the returned tensor is
+`J·n nᵀ + A·(|c|² 1 − c cᵀ)` with `A` the exact (positive) area, `c` the exact centroid and
+`J = ∫|x − c|² dA` the exact centroidal polar moment. -/
+theorem inertiaTensor_general_exact {vs : List (V3 ℝ)} {n : V3 ℝ} {d s : ℝ} {R R2 : M3 ℝ}
+    {Ts : List (Tri ℝ)} (hF : IsFrame R n) (hF2 : IsFrame R2 ⟨0, 0, 1⟩) (hs : s = 1 ∨ s = -1)
+    (hpl : InPlane n d vs) (hT : TrisInPlane n d Ts) (h : Triangulates vs Ts)
+    (ho : OrientedBy3 n s Ts) (hne : Ts ≠ []) :
+    Poly2.inertiaTensor vs n R R2 =
+      Spec3.axisTensor n (s * Spec3.polarAbout n (Spec3.centroid n Ts) Ts) (s * Spec3.area n Ts)
+        (Spec3.centroid n Ts) := by
+  have hn := hF.norm_eq
+  have hpos := oriented3_area_pos ho hne
+  have hA : Spec3.area n Ts ≠ 0 := by
+    intro h0; rw [h0] at hpos; simp at hpos
+  have hc := centroid_general_exact hF hpl hT h hA
+  have harea := area_general_tri hs hpl hn h ho hne
+  have hdc := Spec3.dot_centroid hT hA
+  set C := Spec3.centroid n Ts with hC
+  -- the polar moment evaluated by the code
+  have htri : Triangulates (Poly2.align R2 (Poly2.align R (vs.map (· - C))))
+      (Ts.map (Tri.map (frameMap R R2 C))) := by
+    rw [align_align_centred]; exact EdgeChainEq.map_vertices _ h
+  have hor : OrientedBy s (Ts.map (Tri.map (frameMap R R2 C))) := by
+    intro t' ht'
+    simp only [List.mem_map] at ht'
+    obtain ⟨t, ht, rfl⟩ := ht'
+    rw [frameMap_triArea hF hF2]; exact ho t ht
+  have hj := polarMoment_exact (vs := Poly2.align R (vs.map (· - C))) R2 hs htri hor (by simpa using hne)
+  have hplane : ∀ t ∈ Ts, V3.dot n (t.a - C) = 0 ∧ V3.dot n (t.b - C) = 0 ∧ V3.dot n (t.c - C) = 0 := by
+    intro t ht
+    obtain ⟨ha, hb, hc'⟩ := hT t ht
+    simp only [V3.dot_sub_right, ha, hb, hc', hdc, sub_self, and_self]
+  rw [frameMap_polar hF hF2 C Ts hplane] at hj
+  unfold Poly2.inertiaTensor
+  simp only [hc, hj, harea, Scalar.lit, Scalar.ofNat_real, Nat.cast_zero]
+  rw [rotateTensor_axis hF]
+  simp only [CP.translateInertia, Spec3.axisTensor, Scalar.lit, Scalar.ofNat_real, Nat.cast_zero]
+  apply M3.ext' <;> simp only <;> ring
+
+/-- **C04 inertia tensor, xy-plane (z = d), +z normal, `R = R2 = 1`**, against the 2-D spec:
+`J_c·ẑ ẑᵀ + A·(|c|² 1 − c cᵀ)` with `J_c = ∫x² + ∫y² − A (c_x² + c_y²)` the centroidal polar moment,
+`A` the (positive) area and `c = (∫x / A, ∫y / A, d)` the exact centroid. -/
+theorem inertiaTensor_exact {vs : List (V3 ℝ)} {d s : ℝ} {Ts : List (Tri ℝ)} (hs : s = 1 ∨ s = -1)
+    (hz : ∀ v ∈ vs, v.z = d) (hTz : ∀ t ∈ Ts, t.a.z = d ∧ t.b.z = d ∧ t.c.z = d)
+    (h : Triangulates vs Ts) (ho : OrientedBy s Ts) (hne : Ts ≠ []) :
+    Poly2.inertiaTensor vs ⟨0, 0, 1⟩ M3.one M3.one =
+      Spec3.axisTensor ⟨0, 0, 1⟩
+        (s * (Spec2.second Ts 0 0 + Spec2.second Ts 1 1
+          - Spec2.area Ts * (Spec2.centroidX Ts * Spec2.centroidX Ts + Spec2.centroidY Ts * Spec2.centroidY Ts)))
+        (s * Spec2.area Ts) ⟨Spec2.centroidX Ts, Spec2.centroidY Ts, d⟩ := by
+  have dotz : ∀ v : V3 ℝ, V3.dot ⟨0, 0, 1⟩ v = v.z := by intro v; simp [V3.dot]
+  have hpl : InPlane ⟨0, 0, 1⟩ d vs := fun v hv => by rw [dotz]; exact hz v hv
+  have hT : TrisInPlane ⟨0, 0, 1⟩ d Ts := fun t ht => by simp only [dotz]; exact hTz t ht
+  have ho3 : OrientedBy3 ⟨0, 0, 1⟩ s Ts := fun t ht => by rw [Spec3.triArea_z]; exact ho t ht
+  have hpos := oriented_area_pos ho hne
+  have hA : Spec2.area Ts ≠ 0 := by
+    intro h0; rw [h0] at hpos; simp at hpos
+  have hA3 : Spec3.area ⟨0, 0, 1⟩ Ts ≠ 0 := by rw [Spec3.area_z]; exact hA
+  obtain ⟨fx, fy⟩ := Spec3.first_z Ts
+  have hC : Spec3.centroid ⟨0, 0, 1⟩ Ts = ⟨Spec2.centroidX Ts, Spec2.centroidY Ts, d⟩ := by
+    have hd := Spec3.dot_centroid hT hA3
+    rw [dotz] at hd
+    ext
+    · simp only [Spec3.centroid, V3.sdiv_x, fx, Spec3.area_z, Spec2.centroidX]
+    · simp only [Spec3.centroid, V3.sdiv_y, fy, Spec3.area_z, Spec2.centroidY]
+    · exact hd
+  rw [inertiaTensor_general_exact isFrame_one isFrame_one hs hpl hT h ho3 hne, hC, Spec3.area_z]
+  set c : V3 ℝ := ⟨Spec2.centroidX Ts, Spec2.centroidY Ts, d⟩ with hc
+  have hplane : ∀ t ∈ Ts, V3.dot ⟨0, 0, 1⟩ (t.a - c) = 0 ∧ V3.dot ⟨0, 0, 1⟩ (t.b - c) = 0 ∧
+      V3.dot ⟨0, 0, 1⟩ (t.c - c) = 0 := by
+    intro t ht
+    obtain ⟨ha, hb, hc'⟩ := hTz t ht
+    simp only [dotz, V3.sub_z, ha, hb, hc', hc, sub_self, and_self]
+  have hp := frameMap_polar isFrame_one isFrame_one c Ts hplane
+  rw [frameMap_one] at hp
+  have h0 : Spec2.first Ts 0 = Spec2.area Ts * c.get 0 := by
+    simp only [hc, V3.get_zero, Spec2.centroidX]; field_simp
+  have h1 : Spec2.first Ts 1 = Spec2.area Ts * c.get 1 := by
+    simp only [hc, V3.get_one, Spec2.centroidY]; field_simp
+  rw [Spec2.second_centred Ts c 0 0 h0 h0, Spec2.second_centred Ts c 1 1 h1 h1] at hp
+  rw [← hp]
+  simp only [hc, V3.get_zero, V3.get_one]
+  congr 1; ring
+
+/-! ### perimeter -/
+
+theorem norm_sub_comm (a b : V3 ℝ) : V3.norm (b - a) = V3.norm (a - b) := by
+  unfold V3.norm V3.normSq V3.dot
+  congr 1
+  simp only [V3.sub_x, V3.sub_y, V3.sub_z]; ring
+
+theorem zipWith_swap {β : Type} (f : β → β → ℝ) (hf : ∀ a b, f a b = f b a) (l l' : List β) :
+    List.zipWith f l l' = List.zipWith f l' l := by
+  induction l generalizing l' with
+  | nil => cases l' <;> rfl
+  | cons a t ih =>
+    cases l' with
+    | nil => rfl
+    | cons b t' => simp only [List.zipWith_cons_cons, hf a b, ih t']
+
+/-- **perimeter** does not depend on the direction in which the vertices are listed -/
+theorem perimeter_reverse_invariant (vs : List (V3 ℝ)) :
+    Poly2.perimeter vs.reverse = Poly2.perimeter vs := by
+  rw [← perimeter_rotate_invariant vs (vs.length - 1 % vs.length)]
+  unfold Poly2.perimeter
+  simp only [Scalar.sum_real, rotl_eq_rotate]
+  rw [List.rotate_reverse, ← List.reverse_zipWith (by simp), List.sum_reverse]
+  set m := vs.length - 1 % vs.length with hm
+  have hback : (vs.rotate m).rotate 1 = vs := by
+    rw [List.rotate_rotate]
+    rcases Nat.eq_zero_or_pos vs.length with h0 | hpos
+    · rw [List.length_eq_zero_iff.mp h0]; simp
+    · have : (m + 1) % vs.length = 0 := by
+        rcases Nat.lt_or_ge 1 vs.length with h1 | h1
+        · rw [hm, Nat.mod_eq_of_lt h1]
+          have : vs.length - 1 + 1 = vs.length := by omega
+          rw [this, Nat.mod_self]
+        · have : vs.length = 1 := by omega
+          rw [this]; exact Nat.mod_one _
+      rw [← List.rotate_mod, this, List.rotate_zero]
+  rw [hback]
+  exact congrArg List.sum (zipWith_swap _ (fun a b => norm_sub_comm a b) _ _)
+
+/-! ### non-vacuity: a 5 × 1 rectangle in the tilted plane `−3x + 4z = 9` (`n · v = 9/5`, not through the origin), unit normal `(−3/5, 0, 4/5)`,
+counter-clockwise about the normal, with its two-triangle fan; frame `R` = rotation about `y` -/
+
+def exTilt : List (V3 ℝ) := [⟨1,2,3⟩, ⟨5,2,6⟩, ⟨5,3,6⟩, ⟨1,3,3⟩]
+def exTiltT : List (Tri ℝ) := [⟨⟨1,2,3⟩, ⟨5,2,6⟩, ⟨5,3,6⟩⟩, ⟨⟨1,2,3⟩, ⟨5,3,6⟩, ⟨1,3,3⟩⟩]
+def exN : V3 ℝ := ⟨-3/5, 0, 4/5⟩
+def exR : M3 ℝ := ⟨4/5, 0, 3/5, 0, 1, 0, -3/5, 0, 4/5⟩
+
+theorem exTilt_inPlane : InPlane exN (9/5) exTilt := by
+  intro v hv
+  simp only [exTilt, List.mem_cons, List.not_mem_nil, or_false] at hv
+  rcases hv with rfl | rfl | rfl | rfl <;> simp [exN, V3.dot] <;> norm_num
+
+theorem exN_norm : V3.norm exN = 1 := by
+  simp only [V3.norm, V3.normSq, V3.dot, exN, Scalar.sqrt_real]
+  norm_num
+
+theorem exTilt_triangulates : Triangulates exTilt exTiltT := by
+  intro φ hφ
+  have c := hφ ⟨1,2,3⟩ ⟨5,3,6⟩
+  simp [sumEdges, cycleEdges, exTilt, exTiltT, triEdges, Poly2.rotl] at c ⊢
+  linarith
+
+theorem exTiltT_inPlane : TrisInPlane exN (9/5) exTiltT := by
+  intro t ht
+  simp only [exTiltT, List.mem_cons, List.not_mem_nil, or_false] at ht
+  rcases ht with rfl | rfl <;> simp [exN, V3.dot] <;> norm_num
+
+theorem exTiltT_oriented : OrientedBy3 exN 1 exTiltT := by
+  intro t ht
+  simp only [exTiltT, List.mem_cons, List.not_mem_nil, or_false] at ht
+  rcases ht with rfl | rfl <;> simp [Spec3.triArea, exN, V3.dot, V3.cross, Scalar.lit] <;> norm_num
+
+theorem exR_frame : IsFrame exR exN := by
+  refine ⟨⟨?_, ?_, ?_, ?_, ?_, ?_, ?_⟩, ?_⟩ <;>
+    simp [exR, exN, M3.det, M3.mulVec] <;> norm_num
+
+/-- the example is not degenerate: its signed area about `exN` is `5` -/
+example : Poly2.signedArea exTilt exN = 5 := by
+  rw [signedArea_general_tri exTilt_inPlane exN_norm exTilt_triangulates]
+  simp [Spec3.area, Spec3.triArea, exTiltT, exN, V3.dot, V3.cross, Scalar.lit]; norm_num
+
+example : 0 < (1:ℝ) * Poly2.signedArea exTilt exN :=
+  signedArea_general_sign exTilt_inPlane exN_norm exTilt_triangulates exTiltT_oriented (by simp [exTiltT])
+
+example : Poly2.area exTilt exN = 1 * Spec3.area exN exTiltT :=
+  area_general_tri (Or.inl rfl) exTilt_inPlane exN_norm exTilt_triangulates exTiltT_oriented
+    (by simp [exTiltT])
+
+example : Poly2.centroid exTilt exN exR = Spec3.centroid exN exTiltT :=
+  centroid_general_exact exR_frame exTilt_inPlane exTiltT_inPlane exTilt_triangulates
+    (by have := oriented3_area_pos exTiltT_oriented (by simp [exTiltT]); linarith)
+
+/-- … and the value is the rectangle's centre `(3, 5/2, 9/2)` -/
+example : Poly2.centroid exTilt exN exR = ⟨3, 5/2, 9/2⟩ := by
+  rw [centroid_general_exact exR_frame exTilt_inPlane exTiltT_inPlane exTilt_triangulates
+    (by have := oriented3_area_pos exTiltT_oriented (by simp [exTiltT]); linarith)]
+  ext <;> simp [Spec3.centroid, Spec3.first, Spec3.area, Spec3.triFirst, Spec3.triArea, exTiltT, exN,
+    V3.sum, V3.add, V3.zero, V3.dot, V3.cross, Scalar.lit] <;> norm_num
+
+example : Poly2.polarMoment exTilt exR = 1 * Spec3.polarAbout exN (V3.smul (9/5) exN) exTiltT :=
+  polarMoment_general_exact exR_frame (Or.inl rfl) exTiltT_inPlane exTilt_triangulates exTiltT_oriented
+    (by simp [exTiltT])
+
+example : Poly2.inertiaTensor exTilt exN exR M3.one =
+    Spec3.axisTensor exN (1 * Spec3.polarAbout exN (Spec3.centroid exN exTiltT) exTiltT)
+      (1 * Spec3.area exN exTiltT) (Spec3.centroid exN exTiltT) :=
+  inertiaTensor_general_exact exR_frame isFrame_one (Or.inl rfl) exTilt_inPlane exTiltT_inPlane
+    exTilt_triangulates exTiltT_oriented (by simp [exTiltT])
+
+/-- xy-plane instance (unit square at height `z = 0`) -/
+example : Poly2.inertiaTensor exSq ⟨0, 0, 1⟩ M3.one M3.one =
+    Spec3.axisTensor ⟨0, 0, 1⟩
+      (1 * (Spec2.second exSqT 0 0 + Spec2.second exSqT 1 1
+        - Spec2.area exSqT * (Spec2.centroidX exSqT * Spec2.centroidX exSqT
+            + Spec2.centroidY exSqT * Spec2.centroidY exSqT)))
+      (1 * Spec2.area exSqT) ⟨Spec2.centroidX exSqT, Spec2.centroidY exSqT, 0⟩ := by
+  apply inertiaTensor_exact (Or.inl rfl)
+  · intro v hv
+    simp only [exSq, List.mem_cons, List.not_mem_nil, or_false] at hv
+    rcases hv with rfl | rfl | rfl | rfl <;> rfl
+  · intro t ht
+    simp only [exSqT, List.mem_cons, List.not_mem_nil, or_false] at ht
+    rcases ht with rfl | rfl <;> exact ⟨rfl, rfl, rfl⟩
+  · intro φ hφ
+    have c := hφ ⟨0,0,0⟩ ⟨1,1,0⟩
+    simp [sumEdges, cycleEdges, exSq, exSqT, triEdges, Poly2.rotl] at c ⊢
+    linarith
+  · intro t ht
+    simp [exSqT] at ht
+    rcases ht with rfl | rfl <;> simp [Spec2.triArea, Scalar.lit]
+  · simp [exSqT]
+
+example : Poly2.perimeter exTilt.reverse = Poly2.perimeter exTilt := perimeter_reverse_invariant _
 
 end
